@@ -350,16 +350,27 @@ def _some(x):
 
 # ---------------------------------------------------------------------------------------- the real per-call function
 def real_inst_recs(ins, wd, intern, suffix=""):
-    """Entries that the real write_recombination_list writes for this single (chromosome, family) result."""
+    """Entries that the real write_recombination_list writes for this single (chromosome, family) result.
+    Works for both shapes of the function: (path, ...) opening the file itself (with header), and
+    (open file, ...) appending entries only."""
+    import inspect
+    import logging
     from whatshap.cli.phase import write_recombination_list
     from whatshap.pedigree import Trio
     p = os.path.join(wd, f"one_call.{suffix}.txt")
     trios = [Trio(child=c, father=f, mother=m) for c, f, m in ins["trios"]]
-    import logging
     logging.getLogger("whatshap.pedigree").setLevel(logging.WARNING)
-    write_recombination_list(p, ins["chromosome"], list(ins["accessible_positions"]), dict(map(tuple, ins["components"])),
-                             list(ins["recombination_costs"]), list(ins["transmission_vector"]), trios)
+    args = (ins["chromosome"], list(ins["accessible_positions"]), dict(map(tuple, ins["components"])),
+            list(ins["recombination_costs"]), list(ins["transmission_vector"]), trios)
+    first = list(inspect.signature(write_recombination_list).parameters)[0]
+    if first == "path":
+        write_recombination_list(p, *args)
+    else:
+        with open(p, "w") as f:
+            write_recombination_list(f, *args)
     lines = parse_list_file(p, "recs", intern)
     os.unlink(p)
-    assert lines and lines[0] == "H" and "H" not in lines[1:]
-    return lines[1:]
+    if lines and lines[0] == "H":
+        lines = lines[1:]
+    assert "H" not in lines
+    return lines
